@@ -845,7 +845,9 @@ func (t *Tree) Compile(file string, args []string, out io.Writer) (err error) {
 					for element := range ordered.Iterator() {
 						n.PushBack(element.Copy())
 					}
-					n.PushBack(unordered)
+					if unordered.Front() != nil {
+						n.PushBack(unordered)
+					}
 				}
 			case TypeSequence:
 				classes := make([]struct {
